@@ -273,3 +273,6 @@ func SortedKeys[V any](m map[string]V) []string {
 	sort.Strings(ks)
 	return ks
 }
+
+// PickI64 returns one of the listed values.
+func (c *Ctx) PickI64(label string, vals ...int64) int64 { return vals[c.Pick(label, len(vals))] }
